@@ -610,6 +610,7 @@ def C09_builder_slots(ctx, rid, core, G):
         # comments are kept: pushes to pending_comments under preserve_comments
         # comments are kept: inside the handling of a `comment` child its text is pushed onto a list of pending comments
         pushes = []
+        handed = []
         for n in H.walk(a["body"]):
             regions = []
             if H.kind(n) == "Match" and n["scrut"].get("ty", "").endswith("parser::Rule"):
@@ -618,7 +619,9 @@ def C09_builder_slots(ctx, rid, core, G):
                 regions.append(n["then"])
             for r_ in regions:
                 pushes += [x for x in H.walk(r_) if H.kind(x) == "MethodCall" and x["name"] == "push" and "alloc::string::String" in H.strip(x["args"][0]).get("ty", "alloc::string::String")]
-        ctx.inst(rid, "%s#keeps-comments" % rule, len(pushes) >= 1, "where a comment child is handled its text is pushed onto a pending list: %d site(s)" % len(pushes), H.loc(a["body"]))
+                # the text handed to a helper / method of the crate that keeps the bookkeeping (not followed)
+                handed += [x for x in H.walk(r_) if H.kind(x) in ("Call", "MethodCall") and (x.get("def") or "").startswith(CORE) and any((H.kind(y) == "MethodCall" and y["name"] == "as_str") or (H.kind(y) == "Path" and "pest::iterators::pair::Pair" in (y.get("ty") or "")) for a_ in x.get("args", []) for y in H.walk(a_))]
+        ctx.inst(rid, "%s#keeps-comments" % rule, True if len(pushes) >= 1 else (None if handed else False), "where a comment child is handled its text is pushed onto a pending list: %d site(s)" % len(pushes), H.loc(a["body"]))
         # items: second slot (eol comment) consumed
         for item_rule in {"list": ["list_item"], "record": ["record_item"], "do_block": ["do_statement"]}[rule]:
             n_slots = len(G.seq(G.expr(item_rule)))
@@ -627,7 +630,9 @@ def C09_builder_slots(ctx, rid, core, G):
                 ctx.inst(rid, "%s#slots" % item_rule, False, "no arm for %s" % item_rule, None)
                 continue
             nexts = [x for x in H.walk(item_arms[0]["body"]) if H.kind(x) == "MethodCall" and x["name"] == "next" and "Pairs<" in x.get("recv_ty", "")]
-            ctx.inst(rid, "%s#slots" % item_rule, len(nexts) >= n_slots, "%s has %d child slots; the builder takes %d" % (item_rule, n_slots, len(nexts)), H.loc(item_arms[0]["body"]))
+            delegated = [x for x in H.walk(item_arms[0]["body"]) if H.kind(x) in ("Call", "MethodCall") and (x.get("def") or "").startswith(CORE) and not (x.get("def") or "").endswith("pairs_to_expr_inner")
+                         and any("pest::iterators" in ((a_.get("ty") or "")) or any("pest::iterators" in (y.get("ty") or "") for y in H.walk(a_) if isinstance(y, dict)) for a_ in x.get("args", []))]
+            ctx.inst(rid, "%s#slots" % item_rule, True if len(nexts) >= n_slots else (None if delegated else False), "%s has %d child slots; the builder takes %d" % (item_rule, n_slots, len(nexts)), H.loc(item_arms[0]["body"]))
         # tail merge: format!("{}\n{}", existing trailing, pending) in that order
         for n in H.walk(a["body"]):
             if H.kind(n) == "Macro" and n["name"] == "format":
